@@ -117,3 +117,22 @@ func verifC18Consistent(c *Cell, s string) {
 	vfAssert(c.TerminalCellWidth() == maxC, "width-is-widest-line")
 	vfAssert(len(lines) == len(length.Lines(s)), "cell-lines-are-length-lines")
 }
+
+// VerifC18_runes: a rune item is the cell text string(r) and is measured through that text like any
+// other: also for values that are not valid code points (their text is the replacement character).
+func VerifC18_runes() {
+	runes := []rune{'a', 'é', '世', 0, '\n', '\t', 0x200b, 0x0301, -1, 0xD800, 0xDFFF, 0x110000, 0x7fffffff, 0xFFFD, 0x1F44D}
+	r := runes[vfChoice("rune", len(runes))]
+	var c Cell
+	if vfChoice("via", 2) == 0 {
+		c = NewCell(r)
+	} else {
+		t := New()
+		t.AddRowItems(r)
+		p, _ := t.CellAt(CellLocation{Row: 1, Column: 1})
+		c = *p
+	}
+	verifC18Consistent(&c, string(r))
+	vfObserveInt("width", c.TerminalCellWidth())
+	vfObserveInt("height", c.Height())
+}
